@@ -2,5 +2,6 @@ SPECIFICATION TraceSpec
 CONSTANTS
   MaxErrs = 16
   Faulty <- MCFalse
+  StrictSink <- MCStrictSink
 INVARIANTS TraceInv TraceTotal
 CHECK_DEADLOCK FALSE
